@@ -6,7 +6,7 @@ Tie:    harness/simdrv.c <-> Drivers/SimMain.lean on generated scenarios (profil
 """
 import simcheck
 
-PROFILES = ['oq', 'pq', 'mixed', 'pqreprio']
+PROFILES = ['oq', 'pq', 'mixed', 'pqreprio', 'qdrain']
 
 
 def run(chk):
